@@ -486,16 +486,18 @@ class Parser:
     def expand_verb_env_token(self, tok):
         tok = copy.copy(tok)
         tok.environ = False
+        # NB: a token from a macro body is fixed to the macro call
+        end = tok.pos if tok.pos_fix else tok.pos + len(tok.txt)
         return [
                     defs.BeginToken(tok.pos, '\\begin'),
                     defs.SpecialToken(tok.pos, '{'),
                     defs.TextToken(tok.pos, 'verbatim'),
                     defs.SpecialToken(tok.pos, '}'),
                     tok,
-                    defs.EndToken(tok.pos + len(tok.txt), '\\end'),
-                    defs.SpecialToken(tok.pos + len(tok.txt), '{'),
-                    defs.TextToken(tok.pos + len(tok.txt), 'verbatim'),
-                    defs.SpecialToken(tok.pos + len(tok.txt), '}'),
+                    defs.EndToken(end, '\\end'),
+                    defs.SpecialToken(end, '{'),
+                    defs.TextToken(end, 'verbatim'),
+                    defs.SpecialToken(end, '}'),
         ]
 
     #   parse (skip) optional [...] after \\
